@@ -63,7 +63,7 @@ static void gen_ext_generic(W &w, Tape &t) {   // an extension of unknown / out-
 static void gen_sigalgs(W &w, Tape &t, unsigned type) {
     static const unsigned schemes[] = { 0x0804, 0x0403, 0x0805, 0x0806, 0x0503, 0x0401, 0x0807, 0x0808, 0x0201, 0x0000, 0xffff };
     w.u16(type);
-    VEC(w, 2, VEC(w, 2, { unsigned n = (unsigned) t.below(10); if (t.chance(3, 4)) { w.u16(0x0804); w.u16(0x0403); } for (unsigned i = 0; i < n; i++) w.u16(t.chance(1, 4) ? t.u16() : schemes[t.below(11)]); if (t.chance(1, 12)) w.u8(4); }));
+    VEC(w, 2, VEC(w, 2, { unsigned n = (unsigned) (t.chance(1, 4) ? 20 + t.below(60) : t.below(10)); if (t.chance(3, 4)) { w.u16(0x0804); w.u16(0x0403); } for (unsigned i = 0; i < n; i++) w.u16(t.chance(1, 4) ? t.u16() : schemes[t.below(11)]); if (t.chance(1, 12)) w.u8(4); }));
 }
 static void repeat_last(W &w, size_t from) { Bytes d(w.out.begin() + from, w.out.end()); w.raw(d); }
 
